@@ -100,6 +100,10 @@ def main():
                     node = mod.replace('.', '/') + '.py::' + func
                     oks = 0
                     for _ in range(3):
+                        # (a failing random example is stored in the
+                        # worktree and would be replayed: start afresh)
+                        shutil.rmtree(os.path.join(work, '.hypothesis'),
+                                      ignore_errors=True)
                         one = sh([PY, '-m', 'pytest', '-q', '-p',
                                   'no:cacheprovider', node], env=env,
                                  cwd=work, timeout=1200)
